@@ -51,7 +51,23 @@ def cases_for(bases, faults, rng, n0, per_base=None, must_fail=None, leakcheck=l
     for b in bases:
         fl = faults.get(b["id"], [])
         if per_base and len(fl) > per_base:
-            fl = rng.sample(fl, per_base)
+            # the quick tier runs a part of the space: first the core of every field (0, all ones, original +- 1 and +- 4,
+            # little-endian), then a seeded sample of the rest
+            orig = {o: b["data"][o:o + w] for (o, w) in b["fields"]}
+
+            def is_core(f):
+                if f["k"] != "set" or f["off"] not in orig:
+                    return False
+                o = orig[f["off"]]
+                w = len(o)
+                x = int.from_bytes(o, "little")
+                core = {0, (1 << (8 * w)) - 1} | {(x + d) % (1 << (8 * w)) for d in (1, -1, 4, -4)}
+                return len(f["v"]) == w and int.from_bytes(bytes(f["v"]), "little") in core
+            core = [f for f in fl if is_core(f)]
+            rest = [f for f in fl if not is_core(f)]
+            if len(core) > per_base:
+                core = rng.sample(core, per_base)
+            fl = core + rng.sample(rest, min(len(rest), max(per_base - len(core), per_base // 3)))
         lines = [line(n, b, {"k": "none"}, b["data"], leakcheck=leakcheck(b))]
         for f in fl:
             data = apply_fault(b["data"], f)
